@@ -1,9 +1,9 @@
 SPECIFICATION Spec
 CONSTANTS
-  ValueStacks = {"a", "b"}
+  ValueStacks = {"a"}
   Unbounded = 1000000
-  HasSteps = TRUE
-  HasInputs = TRUE
+  HasSteps = FALSE
+  HasInputs = FALSE
   MaxCalls = 8
   SizeChoices = {2}
   ValueLists <- VL0
